@@ -166,7 +166,23 @@ func withWatchdog(f func() string) string {
 	return ""
 }
 
+// reuse2: like reuse, but the FIRST machine runs from another initial state (fields 9, 10) and its
+// outcome kind is printed in front of the second machine's line: "<first kind>\t<second result>".
+func reuse2Case(n int, f []string) {
+	asm := strings.ReplaceAll(f[8], "|", "\n")
+	app, err := risc.Parse(asm)
+	if err != nil {
+		emit("parse-error")
+		return
+	}
+	first := runOnce(f[0], atoi(f[1]), int64(atoi(f[4])), atoi(f[5]), parsePairs(f[9]), parsePairs(f[10]), app)
+	kind := strings.SplitN(first, " ", 2)[0]
+	emit("%s\t%s", kind, stripTicks(runOnce(f[2], atoi(f[3]), int64(atoi(f[4])), atoi(f[5]), parsePairs(f[6]), parsePairs(f[7]), app)))
+}
+
 func init() {
+	commands["reuse2"] = reuse2Case
+	commandsFlushEach["reuse2"] = true
 	commands["repeat"] = repeatCase
 	commandsFlushEach["repeat"] = true
 	commands["reuse"] = reuseCase
